@@ -244,6 +244,8 @@ def run(ctx, rep):
                           'that queued behind another copy-on-write of the same cluster repeats it from the old source and loses the '
                           'first write (%s)' % (fn, mname, why))
     rep.floor('guarded mutations in copy-on-write routines', ncta, 2)
+    from . import rollback
+    rollback.report(f, P, rep, 'C10.7', ('restore',))
     ncow = 0
     from .c06 import cow_merge_fns
     merges = set(cow_merge_fns(f))
